@@ -541,6 +541,18 @@ _op = st.one_of(
 _case = st.tuples(st.tuples(_w, st.lists(_op, max_size=11)).map(lambda t: [t[0]] + t[1]), st.booleans())
 
 
+@st.composite
+def _case_rounds(draw):
+    """Several partial-delivery rounds on the same message (indexes relative to what get() returns at that time)."""
+    ops = [['write', draw(st.integers(3, 4)), draw(st.integers(1, 2)), True, 5.0]]
+    if draw(st.booleans()):
+        ops.append(['write', draw(st.integers(1, 4)), 1, True, 7.0])
+    for _ in range(draw(st.integers(2, 3))):
+        ops.append(['deliver', 0, draw(st.lists(st.integers(0, 3), min_size=1, max_size=2))])
+        ops.append(draw(st.sampled_from([['incr', 0], ['ts', 0, 2000.0], ['incr', 1], ['scan', 'rename', 0]])))
+    return ops, draw(st.booleans())
+
+
 def run_shard(ctx):
     def one(v):
         ops, same_tmp = v
@@ -551,6 +563,7 @@ def run_shard(ctx):
         ctx.record((repr(v), 'last'), nnt > 0, labels=['history', 'tmp=env' if same_tmp else 'tmp-separate'],
                    case=lambda: {'ops': ops, 'same_tmp': same_tmp, 'crash_points': ncrash}, failures=fails)
     hyp.drive(ctx, _case, one, ctx.n(240, 5000))
+    hyp.drive(ctx, _case_rounds(), one, ctx.n(96, 2000), salt=2)
 
     def qone(spec):
         fails, ncrash, nnt = run_queue_history(spec)
